@@ -279,7 +279,7 @@ def _plain(v, native_dates):
     return v
 
 
-def foreign_dict(doc, native_dates=False, python_names=False):
+def foreign_dict(doc, native_dates=False, python_names=False, omit_empty=False):
     """Independent writer of the 1.1 dictionary layout (reads private fields only).
     python_names=True uses the python-side key names the format maps to (dtype, values, dependency_value)."""
     kn = {'type': 'dtype', 'value': 'values', 'dependencyvalue': 'dependency_value'} if python_names else {}
@@ -318,8 +318,13 @@ def foreign_dict(doc, native_dates=False, python_names=False):
         put(d, 'reference', s._reference)
         put(d, 'sec_cardinality', card(s._sec_cardinality))
         put(d, 'prop_cardinality', card(s._prop_cardinality))
-        d['properties'] = [prop(p) for p in list.__iter__(s._props)]
-        d['sections'] = [sec(c) for c in list.__iter__(s._sections)]
+        props = [prop(p) for p in list.__iter__(s._props)]
+        secs = [sec(c) for c in list.__iter__(s._sections)]
+        # another tool may leave out empty containers altogether
+        if props or not omit_empty:
+            d['properties'] = props
+        if secs or not omit_empty:
+            d['sections'] = secs
         return d
 
     d = {}
@@ -381,10 +386,11 @@ def run_layout(tier, seed):
             # (b) what another tool writes
             found = {}
             all_triples = []
-            for flavour, native, pynames in (('format-keys/text-dates', False, False),
-                                             ('format-keys/native-dates', True, False),
-                                             ('python-keys/text-dates', False, True)):
-                d = foreign_dict(doc, native_dates=native, python_names=pynames)
+            for flavour, native, pynames, omit in (('format-keys/text-dates', False, False, False),
+                                                   ('format-keys/native-dates', True, False, False),
+                                                   ('python-keys/text-dates', False, True, False),
+                                                   ('format-keys/empty-containers-omitted', False, False, True)):
+                d = foreign_dict(doc, native_dates=native, python_names=pynames, omit_empty=omit)
                 own_problems = layout_problems(d, allowed, doc)
                 if own_problems:
                     raise AssertionError('foreign dict writer is not in the 1.1 layout: %r' % (own_problems[:3],))
